@@ -14,7 +14,8 @@ from common import cbool, clist, cnat
 
 THEORY = "C01"
 ALLOWED = {  # kind -> allowed result classes (without fault) ; delivery_error always allowed under a fault
-    "ok": "value", "exc": "exception", "baseexc": "exception", "badres": "delivery_error", "badarg": "delivery_error"}
+    "ok": "value", "exc": "exception", "baseexc": "exception", "badres": "delivery_error", "badarg": "delivery_error",
+    "slow_to": "timeout"}
 
 
 def to_labels(obs, spec):
@@ -34,7 +35,7 @@ def to_labels(obs, spec):
             c = obs["calls"][tag]
             cid = callers.setdefault(c["caller"], len(callers))
             kind = c["kind"]
-            body = {"ok": "OValue %d" % rid, "badres": "OValue %d" % rid, "badarg": "OValue %d" % rid,
+            body = {"ok": "OValue %d" % rid, "badres": "OValue %d" % rid, "badarg": "OValue %d" % rid, "slow_to": "OValue %d" % rid,
                     "exc": "OExc %d" % rid, "baseexc": "OExc %d" % rid}[kind]
             info.append("mkInfo %s %s %s %s (%s)" % (cbool(c["remote"]), cnat(cid), cbool(kind != "badarg"),
                                                      cbool(kind != "badres"), body))
@@ -112,7 +113,7 @@ def to_labels(obs, spec):
         if res is None:
             cls.append("CNone")
         else:
-            cls.append({"value": "CValue", "exception": "CExc", "delivery_error": "CDelivery", "timeout": "CNone"}[res[0]])
+            cls.append({"value": "CValue", "exception": "CExc", "delivery_error": "CDelivery", "timeout": "CTimeout"}[res[0]])
     xlog = [tag_rid[x[1]] for x in obs["execlog"] if x[0] == "enter" and x[1] in tag_rid]
     return labels, info, cls, xlog
 
@@ -145,7 +146,7 @@ def oracle(spec, res):
         want = ALLOWED[c["kind"]]
         if c["kind"] in ("badres", "badarg") and not c["remote"]:
             want = "value"            # local calls are not pickled
-        if cls == "timeout":
+        if cls == "timeout" and c["kind"] != "slow_to":
             return "timeout", "call %s timed out" % tag
         if cls != want:
             if cls == "delivery_error" and fault != "none":
@@ -168,9 +169,11 @@ def gen_specs(ck, n):
     specs = []
     for _ in range(n):
         nl, nr = rng.choice([(1, 1), (2, 1), (1, 2), (0, 2), (2, 0), (1, 0), (0, 1), (2, 2)])
-        mk = lambda: [rng.choice(rpcsim.KINDS if rng.random() < 0.5 else ["ok", "ok", "exc"]) for _ in range(rng.randint(1, 3))]
+        pool = rng.choice([rpcsim.KINDS, ["ok", "ok", "exc"], rpcsim.KINDS_TIMEOUT])
+        mk = lambda: [rng.choice(pool) for _ in range(rng.randint(1, 3))]
         specs.append(dict(local=[mk() for _ in range(nl)], remote=[mk() for _ in range(nr)],
-                          fault=rng.choice(rpcsim.FAULTS), nb=[rng.random() < 0.5 for _ in range(3)]))
+                          fault=rng.choice(rpcsim.FAULTS), nb=[rng.random() < 0.5 for _ in range(3)],
+                          fault_delay=(rng.choice([0, 0, 1.5, 3.0, 5.5]) if pool is rpcsim.KINDS_TIMEOUT else 0)))
     return specs
 
 
